@@ -351,7 +351,9 @@ fn value_to_sql_literal(value: &OwnedValue) -> String {
                     "'-Infinity'".to_string()
                 }
             } else {
-                f.to_string()
+                // `{:?}` keeps a float a float token (1.0, -0.0, 1e21); `{}` prints 1, -0 and
+                // a 22-digit integer, which the lexer reads as integers
+                format!("{:?}", f)
             }
         }
         OwnedValue::Text(s) => {
